@@ -227,6 +227,11 @@ func (b *BitMatrix) Rotate180() {
 				b.bits[offset+j] = curbits >> uint(32-shift)
 			}
 		}
+	} else {
+		// rows fill whole words: no realignment, but the bits of each word still have to be reversed
+		for i := range b.bits {
+			b.bits[i] = bits.Reverse32(b.bits[i])
+		}
 	}
 }
 
